@@ -27,7 +27,7 @@ def Inv (c : FastOps) : Prop :=
 /-- the one fact about `var_ends` that the global chain depends on (through the early exit of
 `fill_args_at_p` when `unfilled = 0`): some variable has ops whenever some slot is occupied -/
 def EndsOK (c : FastOps) : Prop :=
-  c.getEmptyArgsAll.unfilled = 0 → ∀ q, occ c.abs q = false
+  c.getEmptyArgsAll.unfilled = 0 → ∀ q, occAt c.abs q = false
 
 /-- what the callback of a sweep may return -/
 def ActOK (nv : Nat) (nb : Option Nat) (r : Option (Option Op)) : Prop :=
@@ -65,12 +65,12 @@ theorem zipOpt_snd {α β : Type} (a : Option α) (b : Option β) (h : a.isSome 
   cases a <;> cases b <;> simp_all [zipOpt]
 
 theorem getFirstP_canon (nv : Nat) (nb : Option Nat) (s : Slots) :
-    (canon nv nb s).getFirstP = firstOcc (occ s) s.length := by
+    (canon nv nb s).getFirstP = firstOcc (occAt s) s.length := by
   simp only [FastOps.getFirstP, canon, canonEnds]
   exact zipOpt_fst _ _ first_some_iff_last_some
 
 theorem getLastP_canon (nv : Nat) (nb : Option Nat) (s : Slots) :
-    (canon nv nb s).getLastP = lastOcc (occ s) s.length := by
+    (canon nv nb s).getLastP = lastOcc (occAt s) s.length := by
   simp only [FastOps.getLastP, canon, canonEnds]
   exact zipOpt_snd _ _ first_some_iff_last_some
 
@@ -99,16 +99,16 @@ theorem doesVarHaveOps_canon (nv : Nat) (nb : Option Nat) (s : Slots) (v : Nat) 
   simp only [FastOps.doesVarHaveOps, getFirstPForVar_canon nv nb s v hv, firstRel, Option.isSome_map]
   constructor
   · intro h
-    cases hf : firstOcc (occV s v) s.length with
+    cases hf : firstOcc (occVAt s v) s.length with
     | none => rw [hf] at h; cases h
     | some p =>
       obtain ⟨_, h2⟩ := firstOcc_mem hf
-      unfold occV at h2
+      unfold occVAt at h2
       cases hs : slotAt s p with
       | none => rw [hs] at h2; cases h2
       | some op => rw [hs] at h2; exact ⟨p, op, hs, by simpa using h2⟩
   · rintro ⟨p, op, hs, hmem⟩
-    have hocc : occV s v p = true := by unfold occV; rw [hs]; simpa using hmem
+    have hocc : occVAt s v p = true := by unfold occVAt; rw [hs]; simpa using hmem
     obtain ⟨f, hf⟩ := first_some_of_mem hocc (slotAt_lt hs)
     rw [hf]; rfl
 
